@@ -16,7 +16,10 @@ namespace by `getattr`), unpickles every pickle in-process and observes copy and
 Process B (a freshly started interpreter, one per batch): loads the bytes — the module is imported by
 pickle itself — and observes the copies.
 
-Observation of a bundle (identical code for original and copies), for a list of option dictionaries:
+Observation of a bundle (identical code for original and copies): first the module's `reset_state()` (mutable state
+that functions keep on themselves is re-initialised in place), then what every item of the bundle carries in its
+instance `__dict__` read as data (public attributes, the metadata taken over from a wrapped function, whether
+`__wrapped__` is what its qualified name is bound to); then, for a list of option dictionaries:
 value or failure class (+ missing key) of `root.evaluate`, the effect log of that evaluation (what ran, what a
 user cache was asked, what was logged), `validate()`, sorted `keys()`, sorted `explain()`; then `register('late', Option('LATE'))` on every
 dataset of the bundle and evaluation again; then `root.overload('late2')(dataset(late_fn))` and
@@ -70,8 +73,50 @@ of such a member ("not the same object as <module>.<Class>.<member>" for a user 
 the witness as replay; a witness that stops failing is judged like every other graph.  The model must agree on the
 name that cannot be pickled (`E notSame <name>` / `E notFound labrea.interface.<name>`).
 
+Function-object family (graphs `f*`, `functions()`; directed, every run, every protocol, beside the other batches).
+The functions above are bare `def`s.  Real functions are objects with state and history; `FO_KINDS` are the kinds the
+generated module defines at module level and hands to labrea:
+  * a `def` carrying attributes, set after the definition or by a decorator that returns the same function:
+    attributes pickle rejects (a `threading.Lock`, an `RLock`, a lambda, a generator, a module object, an open handle
+    on os.devnull, a class defined inside a function, a closure) and picklable mutable ones the body reads (a call
+    counter dict, a list it appends to — re-initialised in place by `reset_state()` —, a registry filled from the
+    environment variable VERIF_C20_PROC, which is "A" in the pickling and "B" in the receiving interpreter, a slot given
+    in order of definition, the order being reversed in the receiving interpreter);
+  * `functools.wraps` chains whose wrapper is the module-level name (two levels; one carrying a lock taken over from
+    the wrapped function), keyword-only defaults (`__kwdefaults__`), a non-trivial `__doc__` with forward-reference
+    annotations, annotations referring to objects pickle rejects;
+  * `functools.partial` objects (plain, with a picklable attribute, with a lock attribute), callable instances (plain,
+    holding a lock), bound methods of a module-level singleton, static / class methods reached through the class,
+    builtins (`len`, `list`, `bool`), `operator.itemgetter(0)` / `operator.truth`, standard-library functions
+    (`platform.python_implementation`, `pprint.pformat`, `collections.OrderedDict`, `math.isfinite`).
+Each kind fills every function-taking position its callables fit (`FO_POSITIONS`: body of `dataset(f)`, the same with
+dispatch / callback / effects / default options, overload implementation through `overload(k)(f)` and
+`register(k, dataset(f))`, callback, effect, `pipeline_step(f)`, `FunctionApplication.lift(f)`, `apply`, `>>`, `bind`,
+`case(...).when(f, ...)`, Option `default_factory`, Option `domain`): in every run the body position is a graph of its
+own and the others share a graph a few at a time (`FO_GROUPS`); the thorough tier adds one graph per position.
+Oracle: as for every graph; a callable is a picklable part exactly when `pickle.dumps` of the bare callable succeeds in
+the pickling process (checked there, `PARTS`), whatever hangs on it; graphs of callables that do not (a partial / an
+instance holding a lock) are outside the property and counted (`coverage.function_objects`).  For the kinds whose state
+depends on the process, a copy in the fresh interpreter is compared with the same graph as THAT interpreter builds it
+from the module source (also observed there, `own_orig`) — the function travels by reference, so what it reads is what
+the receiving process has — and such graphs are not evaluated before pickling; all other graphs are evaluated once
+before pickling and compared with the original of the pickling process.
+Known finding F33 — `dataset(f)` takes `f.__annotations__` over into the Dataset's instance `__dict__`
+(functools.update_wrapper), where it is pickled by value, so a function that pickles on its own but is annotated with an
+object pickle rejects gives a dataset that cannot be pickled — is handled like F12 and F28.  The witnesses run in every
+run: a function annotated with `Annotated[int, <lambda>]` and one annotated with a class defined inside a function,
+each as `dataset(f)` body, as `dataset(f, **kw)` and as `overload(k)(f)` (the graphs of the two `annotations_*` kinds
+whose positions build a Dataset from the function; they carry `f33`: the qualified name of the annotation object).  A
+witness is excused exactly when `pickle.dumps` fails for every protocol with PicklingError "attribute lookup <name> on
+<module> failed" / AttributeError "Can't pickle local object '<name>'" naming that annotation object AND
+/verif/known_findings.json, read at run time, lists F33 for C20; then one `KNOWN-FINDING ... F33` line is printed.
+Failing in any other way, or while F33 is not listed, is a violation with the witness as replay; a witness that stops
+failing is judged like every other graph; the SAME functions in every other position (callback, effect, step, lift,
+apply, `>>`, bind, case-when, default_factory, domain) are ordinary judged graphs.  The model must agree on the name
+that cannot be pickled (`E notFound <module>.<name>`).
+
 "Picklable parts" (precise meaning used by the sweep): every callable handed to labrea is a
-module-level `def` of the generated module (or a builtin), every option value / default / pre-set
+module-level `def` of the generated module (or a builtin; or one of the function objects above), every option value / default / pre-set
 option is JSON, caches are `MemoryCache` / `NoCache`, callbacks and effects are such functions or
 objects of `labrea.functions` / `pipeline_step` / `CallbackEffect` that pickle *on their own* (checked
 per run: `map filter reduce flatmap flatten negate get get_from partial` do; the helpers built on
@@ -122,10 +167,17 @@ SPEC = PropSpec(
         "in the receiver: hypothesis hrecv of state_roundtrip)",
         "user functions are deterministic; effects are observed only with the cache disabled (cache hits are "
         "value-transparent, so dropping cache entries on pickling is not a violation)",
+        "function objects (graphs f*): a callable is a picklable part when pickle.dumps of the bare callable succeeds in "
+        "the pickling process; for functions whose own state depends on the process they are imported into "
+        "(environment variable, order of definition) a copy in the fresh interpreter is compared with the same graph as "
+        "that interpreter builds it from the module source",
         "known finding F12: decorator-form datasets are not picklable (decorator_form_unpicklable)",
         "known finding F28: interface members declared by annotation / default value / function in the class body and "
         "implementation members given as functions are not picklable (excused only while known_findings.json lists "
         "F28 for C20 and the witness fails with the PicklingError described there)",
+        "known finding F33: dataset(f) / overload(k)(f) copy f.__annotations__ into the Dataset, so a function annotated "
+        "with an object pickle rejects gives a dataset that cannot be pickled (excused only while known_findings.json "
+        "lists F33 for C20 and the witness fails in pickle.dumps, every protocol, naming the annotation object)",
     ],
 )
 
@@ -446,10 +498,48 @@ def obs_one(ds, o, mod):
     return res
 
 
+def surface(bundle):
+    """what every item of the bundle carries in its instance `__dict__`, read as data: the public attributes, the
+    metadata taken over from a wrapped function, and whether `__wrapped__` is what its qualified name is bound to"""
+    out = []
+    for item in bundle:
+        d = getattr(item, "__dict__", None)
+        if not isinstance(d, dict):
+            out.append(None)
+            continue
+        pub = {}
+        for k, v in d.items():
+            if k.startswith("_"):
+                continue
+            try:
+                pub[k] = canon(v)
+            except Exception as e:
+                pub[k] = "!" + type(e).__name__
+        meta = {k: canon(d[k]) for k in ("__name__", "__qualname__", "__module__", "__doc__") if k in d}
+        if "__wrapped__" in d:
+            w = d["__wrapped__"]
+            meta["__wrapped__"] = [type(w).__name__, qual(w) if isinstance(w, FUNC_TYPES) else None,
+                                   (resolve(w) is w) if isinstance(w, FUNC_TYPES) else None]
+        out.append([pub, meta])
+    return out
+
+
+def reset_state(mod):
+    """the generated module re-initialises (in place) the mutable state its functions keep on themselves"""
+    f = getattr(mod, "reset_state", None)
+    if f is not None:
+        f()
+
+
 def observe(bundle, g, mod):
     from labrea import Option, dataset
     root = bundle[-1]
     out = {}
+    reset_state(mod)
+    try:
+        out["at"] = surface(bundle)
+    except Exception as e:
+        out["at"] = "!" + type(e).__name__
     try:
         out["T"] = tables(bundle)
     except Exception as e:
@@ -518,6 +608,7 @@ def main_a(specfile, picklefile):
             continue
         bundle = mod.GRAPHS[gid]
         root = bundle[-1]
+        reset_state(mod)
         for i in g["warm"]:
             try:
                 root.evaluate(json.loads(json.dumps(g["optdicts"][i])))
@@ -582,6 +673,15 @@ def main_b(specfile, picklefile):
             if mod is None:
                 mod = sys.modules.get(spec["module"]) or importlib.import_module(spec["module"])
             res["fresh"][p] = observe(cp, g, mod)
+        if g.get("own_orig"):
+            # the same graph as THIS process builds it from the module source (functions whose state depends on the
+            # process they are imported into): what a copy arriving here has to behave like
+            try:
+                if mod is None:
+                    mod = sys.modules.get(spec["module"]) or importlib.import_module(spec["module"])
+                res["own"] = observe(mod.GRAPHS[gid], g, mod)
+            except Exception as e:
+                res["own_err"] = [type(e).__name__, norm(str(e))]
         print(json.dumps(res))
         sys.stdout.flush()
 
@@ -810,6 +910,488 @@ EFFECTS = {
     "eff_tagged": "F.partial(eff_tagged, tag=Option('TAG', 't'))",
     "cbeffect": "CallbackEffect(eff_log)",
 }
+
+
+# ---------------------------------------------------------------------------------------------
+# function objects (graphs f*): the callables handed to labrea as realistic function OBJECTS
+# ---------------------------------------------------------------------------------------------
+# A kind gives a callable for each role it can play:
+#   src  - called without arguments it reads Options through its defaults: body of `dataset(f)`, overload
+#          implementation, `FunctionApplication.lift(f)`
+#   un   - one positional argument: callback, effect, pipeline step, `apply` / `>>` argument
+#   bind - one positional argument, returns an Evaluatable: `bind` argument
+#   fac  - no argument: Option `default_factory`
+#   pred - one positional argument, truth value: Option `domain`, `case(...).when(pred, ...)`
+FO_ROLES = ["src", "un", "bind", "fac", "pred"]
+FO_SIGS = {"src": 'x{ann}=Option("A")', "un": "x{ann}", "bind": "x", "fac": "", "pred": "x"}
+
+# kinds written as `def` (+ what is done to the function object afterwards).  `$F` is the function's own module-level
+# name.  body: lines that set `r` (what the function reads from its own attributes); after: lines run after the `def`
+# (attributes set after definition); deco: decorator lines; ann / ret: annotations; doc: docstring; sigs: signatures per
+# role; state: (attribute, initial value) of mutable state `reset_state()` re-initialises in place; procdep: the
+# attribute is initialised differently in the pickling and in the receiving process (environment variable
+# VERIF_C20_PROC); reverse_in_receiver: the functions of the kind are defined in the opposite order there.
+FO_DEF_KINDS: List[Dict[str, Any]] = [
+    {"kind": "attribute_lock", "after": ["$F.lock = threading.Lock()"],
+     "body": ["with $F.lock:", "    r = 'guarded'"]},
+    {"kind": "attribute_rlock_set_by_decorator", "deco": ["@fo_guarded"],
+     "body": ["with $F.guard:", "    r = list($F.tags)"]},
+    {"kind": "attribute_lambda", "after": ["$F.key = lambda v: [v]"], "body": ["r = $F.key(0)"]},
+    {"kind": "attribute_generator", "after": ["$F.ids = (i for i in range(1000))"],
+     "body": ["r = type($F.ids).__name__"]},
+    {"kind": "attribute_module", "after": ["$F.codec = json"], "body": ["r = $F.codec.dumps([1])"]},
+    {"kind": "attribute_open_file", "after": ["$F.sink = open(os.devnull, 'w')"],
+     "body": ["$F.sink.write('x')", "r = $F.sink.name == os.devnull"]},
+    {"kind": "attribute_local_class", "after": ["$F.Row = _fo_local_class()"], "body": ["r = $F.Row(2).double()"]},
+    {"kind": "attribute_closure", "after": ["$F.add = _fo_closure(5)"], "body": ["r = $F.add(1)"]},
+    {"kind": "attribute_call_counter_dict", "after": ["$F.calls = {'n': 0, 'last': None}"],
+     "state": ("calls", {"n": 0, "last": None}),
+     "body": ["$F.calls['n'] += 1", "$F.calls['last'] = '$F'", "r = $F.calls['n']"]},
+    {"kind": "attribute_seen_list", "after": ["$F.seen = []"], "state": ("seen", []),
+     "body": ["$F.seen.append(len($F.seen))", "r = list($F.seen)"]},
+    {"kind": "attribute_registry_from_environment", "procdep": True,
+     "after": ["$F.registry = {'proc': _FO_PROC, 'handlers': ['h1'] if _FO_PROC == 'A' else ['h2', 'h1']}"],
+     "body": ["r = [$F.registry['proc'], list($F.registry['handlers'])]"]},
+    {"kind": "attribute_slot_by_definition_order", "procdep": True, "reverse_in_receiver": True,
+     "after": ["fo_plugin($F)"], "body": ["r = [$F.slot['index'], list($F.slot['before'])]"]},
+    {"kind": "wrapped_chain", "deco": ["@fo_traced", "@fo_traced"],
+     "body": ["r = [$F.__wrapped__.__name__, hasattr($F.__wrapped__, '__wrapped__'), $F.traced]"]},
+    {"kind": "wrapped_chain_carrying_lock", "after": ["$F.lock = threading.Lock()", "$F = fo_traced($F)"],
+     "body": ["with $F.lock:", "    r = $F.__wrapped__.lock is $F.lock"]},
+    {"kind": "kwdefaults",
+     "sigs": {"src": '*, x=Option("A"), scale=2', "un": "x, *, scale=2", "bind": "x, *, scale=2", "fac": "*, scale=2",
+              "pred": "x, *, scale=2"},
+     "body": ["r = [scale, sorted($F.__kwdefaults__)]"]},
+    {"kind": "docstring_and_forward_annotations", "ann": ': "typing.Optional[FoService]"', "ret": ' -> "typing.List[int]"',
+     "doc": ['"""Reads option {A} (100 %s of the time) - "quoted", \'single\', back\\\\slash, na\\u00efve \\u00fcn\\u00efcode \\u2014 escaped.',
+             "", "    >>> $F(1)[0]", "    '$F'", '    """'],
+     "body": ["r = [len($F.__doc__), sorted($F.__annotations__)]"]},
+    # annotations whose objects pickle cannot serialise: `dataset(f)` copies `__annotations__` onto the Dataset, where
+    # it is pickled by value: witnesses of known finding F33 ("f33": qualified name of the annotation object)
+    {"kind": "annotations_with_lambda_metadata", "ann": ": typing.Annotated[int, lambda v: v > 0]",
+     "ret": " -> typing.List[typing.Any]", "body": ["r = sorted($F.__annotations__)"], "f33": "<lambda>"},
+    {"kind": "annotations_with_local_class", "ann": ": _FO_LOCAL_ROW", "ret": " -> _FO_LOCAL_ROW",
+     "body": ["r = sorted($F.__annotations__)"], "f33": "_fo_local_class.<locals>.Row"},
+]
+
+# kinds that are not a `def` of their own: expression per role ("key": the option the node reads)
+FO_EXPR_KINDS: List[Dict[str, Any]] = [
+    {"kind": "functools_partial", "roles": {"src": "fo_partial", "un": "fo_partial_on", "bind": "fo_partial_pick",
+                                            "fac": "fo_partial_make", "pred": "fo_partial_ok"}},
+    {"kind": "functools_partial_with_attribute", "roles": {"src": "fo_partial_noted", "un": "fo_partial_noted_on"}},
+    {"kind": "functools_partial_with_lock_attribute", "roles": {"src": "fo_partial_locked", "un": "fo_partial_locked_on"}},
+    {"kind": "callable_instance", "roles": {"src": "fo_callable", "un": "fo_callable_on", "bind": "fo_callable_pick",
+                                            "fac": "fo_callable_make", "pred": "fo_callable_ok"}},
+    {"kind": "callable_instance_holding_lock", "roles": {"src": "fo_callable_locked", "un": "fo_callable_locked_on"}},
+    {"kind": "bound_method_of_singleton", "roles": {"src": "fo_service.run", "un": "fo_service.run_on",
+                                                    "bind": "fo_service.pick", "fac": "fo_service.make",
+                                                    "pred": "fo_service.accept"}},
+    {"kind": "staticmethod_through_class", "roles": {"src": "FoService.s_run", "un": "FoService.s_run_on",
+                                                     "bind": "FoService.s_pick", "fac": "FoService.s_make",
+                                                     "pred": "FoService.s_accept"}},
+    {"kind": "classmethod_through_class", "roles": {"src": "FoService.c_run", "un": "FoService.c_run_on",
+                                                    "bind": "FoService.c_pick", "fac": "FoService.c_make",
+                                                    "pred": "FoService.c_accept"}},
+    {"kind": "builtin", "key": "AS", "roles": {"un": "len", "fac": "list", "pred": "bool"}},
+    {"kind": "operator_object", "key": "AS", "roles": {"un": "operator.itemgetter(0)", "pred": "operator.truth"}},
+    {"kind": "standard_library_function", "roles": {"src": "platform.python_implementation", "un": "pprint.pformat",
+                                                    "fac": "collections.OrderedDict", "pred": "math.isfinite"}},
+]
+
+FO_HELPERS = '''\
+# ---- function objects (graphs f*): callables that carry state, metadata and wrappers, as real code has them
+import collections
+import functools
+import math
+import operator
+import os
+import platform
+import pprint
+import threading
+import typing
+
+_FO_PROC = os.environ.get("VERIF_C20_PROC", "A")   # "A": the process that pickles, "B": the one that receives
+_FO_STATE = []
+FO_PLUGINS = []
+FO_MARKED = []
+
+
+def reset_state():
+    """re-initialise, in place, the mutable state functions keep on themselves (run before every observation)"""
+    for cur, init in _FO_STATE:
+        if isinstance(cur, dict):
+            cur.clear()
+            cur.update(json.loads(json.dumps(init)))
+        else:
+            cur[:] = json.loads(json.dumps(init))
+
+
+def fo_guarded(fn):
+    """a decorator that returns the same function, marked and given a lock"""
+    fn.guard = threading.RLock()
+    fn.tags = ["guarded", fn.__name__]
+    FO_MARKED.append(fn.__name__)
+    return fn
+
+
+def fo_traced(fn):
+    @functools.wraps(fn)
+    def wrapper(*args, **kwargs):
+        return fn(*args, **kwargs)
+    wrapper.traced = getattr(fn, "traced", 0) + 1
+    return wrapper
+
+
+def fo_plugin(fn):
+    """registration in order of definition: the slot depends on what was defined before"""
+    fn.slot = {"index": len(FO_PLUGINS), "before": list(FO_PLUGINS)}
+    FO_PLUGINS.append(fn.__name__)
+    return fn
+
+
+def _fo_local_class():
+    class Row:
+        def __init__(self, v):
+            self.v = v
+
+        def double(self):
+            return self.v * 2
+    return Row
+
+
+_FO_LOCAL_ROW = _fo_local_class()
+
+
+def _fo_closure(k):
+    def add(v):
+        return v + k
+    return add
+
+
+def fo_two(tag, x=Option("A")):
+    EFFECT_LOG.append(["ran", "fo_two", tag, w_show(x)])
+    return ["fo_two", tag, w_show(x)]
+
+
+def fo_two_on(tag, x):
+    EFFECT_LOG.append(["ran", "fo_two_on", tag, w_show(x)])
+    return ["fo_two_on", tag, w_show(x)]
+
+
+def fo_two_pick(tag, x):
+    return Option("B", 3) if x == 1 else Option("C", 0)
+
+
+def fo_two_ok(bad, x):
+    return x != bad
+
+
+fo_partial = functools.partial(fo_two, "p")
+fo_partial_on = functools.partial(fo_two_on, "p")
+fo_partial_pick = functools.partial(fo_two_pick, "p")
+fo_partial_make = functools.partial(fo_two, "m", 0)
+fo_partial_ok = functools.partial(fo_two_ok, 2)
+fo_partial_noted = functools.partial(fo_two, "n")
+fo_partial_noted.note = {"owner": "verif", "retries": [1, 2]}
+fo_partial_noted_on = functools.partial(fo_two_on, "n")
+fo_partial_noted_on.note = fo_partial_noted.note
+fo_partial_locked = functools.partial(fo_two, "l")
+fo_partial_locked.lock = threading.Lock()
+fo_partial_locked_on = functools.partial(fo_two_on, "l")
+fo_partial_locked_on.lock = fo_partial_locked.lock
+
+
+class FoCallable:
+    """instances are callable; module-level instances are handed to labrea"""
+
+    def __init__(self, tag, mode):
+        self.tag = tag
+        self.mode = mode
+
+    def __call__(self, x=Option("A")):
+        if self.mode == "pick":
+            return Option("B", 3) if x == 1 else Option("C", 0)
+        if self.mode == "ok":
+            return x != 2
+        if self.mode == "make":
+            return ["FoCallable", self.tag]
+        EFFECT_LOG.append(["ran", "FoCallable", self.tag, w_show(x)])
+        return ["FoCallable", self.tag, w_show(x)]
+
+
+class FoStepCallable(FoCallable):
+    def __call__(self, x):
+        return FoCallable.__call__(self, x)
+
+
+class FoLockedCallable(FoCallable):
+    def __init__(self, tag, mode):
+        FoCallable.__init__(self, tag, mode)
+        self.lock = threading.Lock()
+
+
+fo_callable = FoCallable("c", "run")
+fo_callable_pick = FoCallable("c", "pick")
+fo_callable_make = FoCallable("c", "make")
+fo_callable_ok = FoCallable("c", "ok")
+fo_callable_on = FoStepCallable("c", "run")
+fo_callable_locked = FoLockedCallable("k", "run")
+fo_callable_locked_on = FoStepCallable("k", "run")
+fo_callable_locked_on.lock = fo_callable_locked.lock
+
+
+class FoService:
+    """a module-level singleton whose methods are handed to labrea; static / class methods through the class"""
+    name = "FoService"
+
+    def __init__(self, tag):
+        self.tag = tag
+
+    def run(self, x=Option("A")):
+        EFFECT_LOG.append(["ran", "FoService.run", self.tag, w_show(x)])
+        return ["FoService.run", self.tag, w_show(x)]
+
+    def run_on(self, x):
+        EFFECT_LOG.append(["ran", "FoService.run_on", self.tag, w_show(x)])
+        return ["FoService.run_on", self.tag, w_show(x)]
+
+    def pick(self, x):
+        return Option("B", 3) if x == 1 else Option("C", 0)
+
+    def make(self):
+        return ["FoService.make", self.tag]
+
+    def accept(self, x):
+        return x != 2
+
+    @staticmethod
+    def s_run(x=Option("A")):
+        EFFECT_LOG.append(["ran", "FoService.s_run", w_show(x)])
+        return ["FoService.s_run", w_show(x)]
+
+    @staticmethod
+    def s_run_on(x):
+        EFFECT_LOG.append(["ran", "FoService.s_run_on", w_show(x)])
+        return ["FoService.s_run_on", w_show(x)]
+
+    @staticmethod
+    def s_pick(x):
+        return Option("B", 3) if x == 1 else Option("C", 0)
+
+    @staticmethod
+    def s_make():
+        return ["FoService.s_make"]
+
+    @staticmethod
+    def s_accept(x):
+        return x != 2
+
+    @classmethod
+    def c_run(cls, x=Option("A")):
+        EFFECT_LOG.append(["ran", "FoService.c_run", cls.name, w_show(x)])
+        return ["FoService.c_run", cls.name, w_show(x)]
+
+    @classmethod
+    def c_run_on(cls, x):
+        EFFECT_LOG.append(["ran", "FoService.c_run_on", cls.name, w_show(x)])
+        return ["FoService.c_run_on", cls.name, w_show(x)]
+
+    @classmethod
+    def c_pick(cls, x):
+        return Option("B", 3) if x == 1 else Option("C", 0)
+
+    @classmethod
+    def c_make(cls):
+        return ["FoService.c_make", cls.name]
+
+    @classmethod
+    def c_accept(cls, x):
+        return x != 2
+
+
+fo_service = FoService("s")
+'''
+
+
+def fo_name(kind: str, role: str) -> str:
+    return f"fo_{kind}" if role == "src" else f"fo_{kind}_{role}"
+
+
+def fo_def_lines(k: Dict[str, Any], role: str) -> List[str]:
+    """source of the function of def-kind `k` that plays `role`"""
+    name = fo_name(k["kind"], role)
+    sig = (k.get("sigs") or FO_SIGS)[role].replace("{ann}", k.get("ann", ""))
+    out = list(k.get("deco", []))
+    out.append(f"def {name}({sig}){k.get('ret', '') if role in ('src', 'un') else ''}:")
+    out.extend("    " + l if l else "" for l in k.get("doc") or [])
+    out.extend("    " + l for l in k["body"])
+    if role in ("src", "un"):
+        out.append(f"    EFFECT_LOG.append(['ran', '{name}', w_show(x)])")
+        out.append(f"    return ['{name}', w_show(x), r]")
+    elif role == "bind":
+        out.append("    return Option('B', 3) if x == 1 else Option('C', 0)")
+    elif role == "fac":
+        out.append(f"    return ['{name}', r]")
+    else:
+        out.append("    return x != 2")
+    out.extend(["", ""])
+    if k.get("after"):
+        out.extend(k["after"])
+        if k.get("state"):
+            out.append(f"_FO_STATE.append(($F.{k['state'][0]}, {k['state'][1]!r}))")
+        out.extend(["", ""])
+    return [l.replace("$F", name) for l in out]
+
+
+def fo_kind_src(k: Dict[str, Any]) -> List[str]:
+    if "roles" in k:
+        return []
+    blocks = [fo_def_lines(k, role) for role in FO_ROLES]
+    if not k.get("reverse_in_receiver"):
+        return [l for b in blocks for l in b]
+    out = ["if _FO_PROC != 'B':"]
+    out.extend("    " + l if l else "" for b in blocks for l in b)
+    out.append("else:")
+    out.extend("    " + l if l else "" for b in reversed(blocks) for l in b)
+    out.extend(["", ""])
+    return out
+
+
+def fo_roles(k: Dict[str, Any]) -> Dict[str, str]:
+    return k["roles"] if "roles" in k else {role: fo_name(k["kind"], role) for role in FO_ROLES}
+
+
+FO_KINDS: List[Dict[str, Any]] = FO_DEF_KINDS + FO_EXPR_KINDS
+FO_SRC = FO_HELPERS + "\n\n" + "\n".join(l for k in FO_DEF_KINDS for l in fo_kind_src(k))
+FO_PARTS_SRC = "".join(f"    ({'fo:' + k['kind'] + ':' + role!r}, lambda: {expr}),\n"
+                       for k in FO_KINDS for role, expr in fo_roles(k).items())
+_m1, _m2 = "PARTS = {}\n", '    ("cbeffect", lambda: CallbackEffect(eff_log)),\n'
+assert MODULE_PRELUDE.count(_m1) == 1 and MODULE_PRELUDE.count(_m2) == 1
+MODULE_PRELUDE = MODULE_PRELUDE.replace(_m1, FO_SRC + "\n" + _m1).replace(_m2, _m2 + FO_PARTS_SRC)
+
+# Positions: the function-taking places of the API, each with the role it needs.  `dataset` positions make the root
+# dataset from the callable, `callback` positions hang it on a dataset, `stored` positions build a node that is stored
+# as an argument default of an explicit-form root dataset.  {F} is the callable, {OPT} the option the node reads.
+FO_POSITIONS: List[Tuple[str, str, str]] = [
+    ("dataset_body", "src", "dataset"),
+    ("dataset_body_with_keywords", "src", "dataset"),
+    ("overload_implementation", "src", "dataset"),
+    ("callback", "un", "callback"),
+    ("effect", "un", "callback"),
+    ("pipeline_step", "un", "callback"),
+    ("lift", "src", "FunctionApplication.lift({F})"),
+    ("apply", "un", "{OPT}.apply({F})"),
+    ("rshift", "un", "{OPT} >> {F}"),
+    ("bind", "bind", "{OPT}.bind({F})"),
+    ("case_when", "pred", "case({OPT}).when({F}, 'yes').otherwise('no')"),
+    ("option_default_factory", "fac", "Option('ZZ', default_factory={F})"),
+    ("option_domain", "pred", "Option({KEY}, domain={F})"),
+]
+FO_POSITION = {p: (role, how) for p, role, how in FO_POSITIONS}
+# every run: the body position on its own, the others a few to a graph (every position of every kind is in one graph);
+# thorough tier: also one graph per position
+FO_GROUPS: List[List[str]] = [
+    ["dataset_body"],
+    ["dataset_body_with_keywords", "overload_implementation"],
+    ["callback", "effect", "pipeline_step"],
+    ["lift", "apply", "rshift", "bind", "case_when"],
+    ["option_default_factory", "option_domain"],
+]
+# what labrea refuses to build (not a pickling matter): left out of the graphs, listed in the evidence
+FO_NOT_BUILDABLE = {("operator_object", "pipeline_step"): "ValueError: callable operator.itemgetter(0) is not supported "
+                                                          "by signature (inspect.signature, in PartialApplication.lift)"}
+
+
+def fo_graph_src(positions: List[str], roles: Dict[str, str], key: str) -> Tuple[List[str], List[str]]:
+    """(module-level lines, bundle) of one graph that uses the callables of `roles` in `positions` (all of one family:
+    dataset / callback / stored); `$` is the graph's name prefix, `$R` the root"""
+    f = {p: roles[FO_POSITION[p][0]] for p in positions}
+    family = {"dataset": "dataset", "callback": "callback"}.get(FO_POSITION[positions[0]][1], "stored")
+    if family == "dataset":
+        if "dataset_body" in f:
+            return [f"$R = dataset({f['dataset_body']})"], ["$R"]
+        if "dataset_body_with_keywords" in f:
+            lines = [f"$R = dataset({f['dataset_body_with_keywords']}, dispatch=Option('K', 'none'), callback=w_wrap, "
+                     "effects=[eff_log], default_options={'A': 9})"]
+        else:
+            lines = ["$R = dataset(w_one, dispatch='K')"]
+        if "overload_implementation" in f:
+            return lines + [f"$X = $R.overload('one')({f['overload_implementation']})",
+                            f"$R.register('two', dataset({f['overload_implementation']}))"], ["$X", "$R"]
+        return lines + ["$R.register('two', Option('C', 0))"], ["$R"]
+    if family == "callback":
+        lines, bundle, base = [], [], "w_one"
+        if "pipeline_step" in f:
+            lines.append(f"$X = pipeline_step({f['pipeline_step']})")
+            bundle.append("$X")
+            if len(f) == 1:
+                return lines + ["$R = dataset(w_one, callback=$X + w_wrap)"], bundle + ["$R"]
+            lines.append("$Y = dataset(w_one, callback=$X + w_wrap)")
+            bundle.append("$Y")
+            base = "$Y"
+        if "effect" in f:
+            # (every use of the callable is handed a list, so that `len` / `itemgetter(0)` have something to work on)
+            if len(f) == 1 or (len(f) == 2 and "callback" in f):
+                kw = f", callback={f['callback']}" if "callback" in f else ""
+                return lines + [f"$R = dataset.nocache({base}, effects=[{f['effect']}]{kw})"], bundle + ["$R"]
+            lines.append(f"$Z = dataset.nocache(w_one, effects=[{f['effect']}])")
+            bundle.append("$Z")
+            base = f"evaluatable_list({base}, $Z)"
+        return lines + [f"$R = dataset.nocache({base}, callback={f['callback']})"], bundle + ["$R"]
+    lines, names = [], []
+    for i, p in enumerate(positions):
+        expr = FO_POSITION[p][1].replace("{F}", f[p]).replace("{OPT}", f"Option({key!r})").replace("{KEY}", repr(key))
+        lines.append(f"$N{i} = {expr}")
+        names.append(f"$N{i}")
+    lines += ["def $R_fn(" + ", ".join(f"v{i}={n}" for i, n in enumerate(names)) + "):",
+              "    EFFECT_LOG.append(['ran', 'R'])",
+              "    return ['R', " + ", ".join(f"w_show(v{i})" for i in range(len(names))) + "]",
+              "$R = dataset.nocache($R_fn)"]
+    return lines, names + ["$R"]
+
+
+def fo_optdicts() -> List[Dict[str, Any]]:
+    full = {"A": 1, "B": 2, "C": 4, "K": "one", "M": "two", "Y": 5, "AS": [1, 2]}
+    other = dict(full, A=2, K="two", AS=[])
+    off = dict(full, LABREA={"CACHE": {"DISABLED": True}})
+    return [full, other, {}, off]
+
+
+def functions(prefix: str = "f", fine: bool = False) -> List[Dict[str, Any]]:
+    """every kind of function object in every function-taking position (FO_GROUPS: the positions a few to a graph; with
+    `fine` also one graph per position).  Graphs of kinds whose state depends on the process are not evaluated before
+    pickling, and what a copy does in the fresh interpreter is compared with the same graph as that interpreter builds
+    it (`own_orig`); all others are evaluated once before pickling (a memo travels) and compared with the original of
+    the pickling process."""
+    gs: List[Dict[str, Any]] = []
+    od = fo_optdicts()
+    groups = FO_GROUPS + ([[p] for grp in FO_GROUPS if len(grp) > 1 for p in grp] if fine else [])
+    for k in FO_KINDS:
+        roles = fo_roles(k)
+        for grp in groups:
+            positions = [p for p in grp if FO_POSITION[p][0] in roles and (k["kind"], p) not in FO_NOT_BUILDABLE]
+            if not positions:
+                continue
+            gid = f"{prefix}{len(gs)}"
+            pre = gid + "_"
+            lines, bundle = fo_graph_src(positions, roles, k.get("key", "A"))
+            used = sorted({FO_POSITION[p][0] for p in positions})
+            node = {"name": pre + "R", "kind": "expr", "form": "explicit", "lines": [l.replace("$", pre) for l in lines],
+                    "uses": [f"fo:{k['kind']}:{role}" for role in used]}
+            g = finish_graph(gid, [node], od, [] if k.get("procdep") else [0],
+                             f"function object {k['kind']} as {' + '.join(positions)}")
+            g["bundle"] = [b.replace("$", pre) for b in bundle]
+            g["optdicts2"], g["optdicts3"] = g["optdicts2"][:1], g["optdicts3"][:1]
+            g["fo_kind"], g["fo_positions"] = k["kind"], positions
+            if k.get("procdep"):
+                g["own_orig"] = True
+            if k.get("f33") and any(FO_POSITION[p][1] == "dataset" for p in positions):
+                # witness of known finding F33: a Dataset is built from the annotated function
+                node["f33_annotation"] = [k["f33"]]
+            if "roles" not in k:
+                g["fo_source"] = [l for role in used for l in fo_def_lines(k, role) if l]
+            gs.append(g)
+    return gs
 
 
 def arg_src(a: Dict[str, Any]) -> str:
@@ -1409,7 +1991,8 @@ def run_batch(graphs: List[Dict[str, Any]], protocols: List[int], tag: str) -> D
         src = module_src(graphs)
         (work / f"{modname}.py").write_text(src)
         spec = {"module": modname, "protocols": protocols,
-                "graphs": [{k: g[k] for k in ("gid", "optdicts", "optdicts2", "optdicts3", "warm")} for g in graphs]}
+                "graphs": [dict({k: g[k] for k in ("gid", "optdicts", "optdicts2", "optdicts3", "warm")},
+                                own_orig=bool(g.get("own_orig"))) for g in graphs]}
         (work / "spec.json").write_text(json.dumps(spec))
         # a small environment for both interpreters: labrea resolves every option value through confectioner, which
         # copies os.environ on each call, so the evaluation cost grows with the number of variables; no generated
@@ -1422,15 +2005,18 @@ def run_batch(graphs: List[Dict[str, Any]], protocols: List[int], tag: str) -> D
         pk = str(work / "pickles.bin")
         fa = open(work / "a.out", "w")
         fea = open(work / "a.err", "w")
+        # which side of the round trip an interpreter is: functions of the generated module that keep state on
+        # themselves initialise it from this variable (differently in the receiving process)
         pa = subprocess.Popen([PY, "-B", str(work / "c20_support.py"), "A", str(work / "spec.json"), pk],
-                              stdout=fa, stderr=fea, env=env, cwd=str(work))
+                              stdout=fa, stderr=fea, env=dict(env, VERIF_C20_PROC="A"), cwd=str(work))
         t0 = time.time()
         while not os.path.exists(pk) and pa.poll() is None and time.time() - t0 < 900:
             time.sleep(0.02)
         b_out, b_err, b_rc = "", "", None
         if os.path.exists(pk):
             rb = subprocess.run([PY, "-B", str(work / "c20_support.py"), "B", str(work / "spec.json"), pk],
-                                capture_output=True, text=True, env=env, cwd=str(work), timeout=1800)
+                                capture_output=True, text=True, env=dict(env, VERIF_C20_PROC="B"), cwd=str(work),
+                                timeout=1800)
             b_out, b_err, b_rc = rb.stdout, rb.stderr, rb.returncode
         try:
             pa.wait(timeout=1800)
@@ -1463,6 +2049,10 @@ def run_batch(graphs: List[Dict[str, Any]], protocols: List[int], tag: str) -> D
             r = res["graphs"].setdefault(d["gid"], {"gid": d["gid"]})
             r["fresh"] = d["fresh"]
             r["load_err_fresh"] = d["load_err"]
+            if "own" in d:
+                r["own_fresh"] = d["own"]
+            if "own_err" in d:
+                r["own_fresh_err"] = d["own_err"]
         # model
         order = [g["gid"] for g in graphs if "heap" in res["graphs"].get(g["gid"], {})]
         if order:
@@ -1500,6 +2090,15 @@ def f28_names(g: Dict[str, Any]) -> List[str]:
     return [w for n in g["nodes"] for w in n.get("f28", [])]
 
 
+# any name (also `<lambda>`) / a local object
+LOOKUP_FAILED_ANY = re.compile(r"attribute lookup (\S+) on ([A-Za-z0-9_.]+) failed$")
+LOCAL_OBJECT = re.compile(r"^Can't pickle local object '(\S+)'$")
+
+
+def f33_names(g: Dict[str, Any]) -> List[str]:
+    return [w for n in g["nodes"] for w in n.get("f33_annotation", [])]
+
+
 def listed_known() -> set:
     """ids that /verif/known_findings.json (read now) lists for this property: only those excuse a failure"""
     return {k.get("id") for k in known_findings().get("known", []) if "C20" in k.get("properties", [])}
@@ -1514,6 +2113,9 @@ def classify(payload: Dict[str, Any]) -> Optional[str]:
     function) and pickling failed, for every protocol tried, with PicklingError naming the function of such a member:
     "... it's not the same object as <module>.<Class>.<member>" (the user's function, re-bound by the library) or
     "... attribute lookup <Class>.<member> on labrea.interface failed" (a function the library made up).
+    F33 exactly when the graph builds a Dataset from a function annotated with an object pickle rejects (witness graphs:
+    `f33_annotation` names the object) and pickling failed, for every protocol tried, naming that object: PicklingError
+    "... attribute lookup <name> on <module> failed" or AttributeError "Can't pickle local object '<name>'".
     (Whether a returned id excuses the failure is decided by the caller: it must be listed for C20 in
     known_findings.json.)"""
     g = payload.get("graph")
@@ -1537,11 +2139,21 @@ def classify(payload: Dict[str, Any]) -> Optional[str]:
                 continue
             return None
         return "F28"
+    annotated = set(f33_names(g))
+    if annotated:
+        for cls, msg in obs["dump_err"].values():
+            look, local = LOOKUP_FAILED_ANY.search(msg), LOCAL_OBJECT.search(msg)
+            if cls == "PicklingError" and look and look.group(1) in annotated and look.group(2) == module:
+                continue
+            if cls == "AttributeError" and local and local.group(1) in annotated:
+                continue
+            return None
+        return "F33"
     return None
 
 
 # order in which the facets of an observation are compared / reported
-FACETS = ["q1", "x0", "T", "reg", "R", "q2", "ovl", "q3"]
+FACETS = ["at", "q1", "x0", "T", "reg", "R", "q2", "ovl", "q3"]
 
 
 def first_diff(a: Any, b: Any, path: str = "") -> str:
@@ -1586,6 +2198,12 @@ def judge(g: Dict[str, Any], r: Dict[str, Any], module: str, protocols: List[int
             lf = LOOKUP_FAILED.search(dump_err[p0][1])
             if lf and dump_err[p0][0] == "PicklingError":
                 want = f"E notFound {esc(lf.group(2) + '.' + lf.group(1))}"
+            la, lo = LOOKUP_FAILED_ANY.search(dump_err[p0][1]), LOCAL_OBJECT.search(dump_err[p0][1])
+            if want is None and la and dump_err[p0][0] == "PicklingError":
+                want = f"E notFound {esc(la.group(2) + '.' + la.group(1))}"     # e.g. <module>.<lambda>
+            if want is None and lo and dump_err[p0][0] == "AttributeError" and model.startswith("E notFound ") \
+                    and model.endswith(esc("." + lo.group(1))):
+                want = model       # a local object: pickle's message has the qualified name without the module
             if model != want:
                 out.append(("correspondence", f"model says '{model}' where pickle.dumps raised "
                             f"{dump_err[p0][0]}: {dump_err[p0][1]}".replace(module, "<module>"), None))
@@ -1605,7 +2223,15 @@ def judge(g: Dict[str, Any], r: Dict[str, Any], module: str, protocols: List[int
         mt = re.sub(r"(^|;)[LN]", r"\1", mt)
         mr = re.sub(r"(^|;)[LN]", r"\1", mr)
     orig = r.get("orig")
+    if g.get("own_orig") and r.get("own_fresh") is None:
+        out.append(("failing-input", "the fresh interpreter could not observe the graph as it builds it itself: "
+                    f"{r.get('own_fresh_err')}", None))
     for where, key, lerr in (("in-process", "inproc", "load_err"), ("fresh interpreter", "fresh", "load_err_fresh")):
+        # what a copy has to behave like: the original of the pickling process; in the fresh interpreter, for graphs
+        # whose functions keep process-dependent state, the same graph as that interpreter builds it
+        ref, ref_name = orig, "original"
+        if key == "fresh" and g.get("own_orig"):
+            ref, ref_name = r.get("own_fresh"), "graph built by the fresh interpreter"
         for p in protocols:
             ps = str(p)
             le = r.get(lerr, {}).get(ps)
@@ -1616,10 +2242,10 @@ def judge(g: Dict[str, Any], r: Dict[str, Any], module: str, protocols: List[int
             if cp is None:
                 out.append(("failing-input", f"no observation of the copy ({where}, protocol {p})", None))
                 continue
-            if orig is not None and orig != cp:
-                facet = next((k for k in FACETS if orig.get(k) != cp.get(k)), None)
-                where_diff = (first_diff(orig.get(facet), cp.get(facet), f"original.{facet} vs copy.{facet}")
-                              if facet else first_diff(orig, cp, "obs"))
+            if ref is not None and ref != cp:
+                facet = next((k for k in FACETS if ref.get(k) != cp.get(k)), None)
+                where_diff = (first_diff(ref.get(facet), cp.get(facet), f"{ref_name}.{facet} vs copy.{facet}")
+                              if facet else first_diff(ref, cp, "obs"))
                 out.append(("failing-input", f"behaviour differs after the round trip ({where}, protocol {p}): "
                             + where_diff, None))
             if mt is not None and (cp.get("T") != mt or cp.get("R") != mr):
@@ -1743,6 +2369,11 @@ def explore(ctx: Ctx) -> Exploration:
     f12: List[Tuple[Dict[str, Any], Dict[str, Any], str, List[int], str]] = []
     f28: List[Tuple[Dict[str, Any], Dict[str, Any], str, List[int], str]] = []
     n_f28_witnesses = 0
+    f33: List[Tuple[Dict[str, Any], Dict[str, Any], str, List[int], str]] = []
+    n_f33_witnesses = 0
+    f33_seen: List[Dict[str, Any]] = []
+    f33_kinds = {k["kind"] for k in FO_KINDS if k.get("f33")}
+    f33_other = 0       # graphs that use the same annotated functions in the other positions (judged like any graph)
     n_deco = 0
     skipped_parts = 0
     build_failed = 0
@@ -1750,6 +2381,11 @@ def explore(ctx: Ctx) -> Exploration:
 
     corp = corpus("c")
     fam = wrappers("w")
+    fobj = functions("f", fine=thorough)
+    fo_cov: Dict[str, Dict[str, Any]] = {
+        k["kind"]: {"graphs_judged": 0, "positions": [], "not_a_picklable_part": 0, "construction_failed": 0,
+                    "failing_as_known_finding_F33": 0} for k in FO_KINDS}
+    fo_lost: List[str] = []
     rand = [gen_graph(rng, f"r{i}", decorator=(rng.random() < 0.22)) for i in range(n_random)]
     all_protocols = protocols_for(ctx.tier, True)
     batches: List[Tuple[List[Dict[str, Any]], List[int], str, Any]] = [(corp, all_protocols, f"{ctx.seed}_c", None)]
@@ -1757,11 +2393,19 @@ def explore(ctx: Ctx) -> Exploration:
     # batches, so the wall time of the check stays what the corpus + random batches need
     n_chunks = 4
     per = (len(fam) + n_chunks - 1) // n_chunks
-    pool = ThreadPoolExecutor(max_workers=n_chunks + 1)
+    n_fo_chunks = 2
+    pool = ThreadPoolExecutor(max_workers=n_chunks + n_fo_chunks + 1)
     for i in range(n_chunks):
         chunk = fam[i * per:(i + 1) * per]
         if chunk:
             tag = f"{ctx.seed}_w{i}"
+            batches.append((chunk, all_protocols, tag, pool.submit(run_and_judge, chunk, all_protocols, tag)))
+    # the directed function-object family (always, every protocol), beside the others in the same pool; dealt out
+    # round-robin so that every chunk holds every kind
+    for i in range(n_fo_chunks):
+        chunk = fobj[i::n_fo_chunks]
+        if chunk:
+            tag = f"{ctx.seed}_f{i}"
             batches.append((chunk, all_protocols, tag, pool.submit(run_and_judge, chunk, all_protocols, tag)))
     for b in range(0, len(rand), batch_size):
         chunk, protos, tag = rand[b:b + batch_size], protocols_for(ctx.tier, False), f"{ctx.seed}_r{b // batch_size}"
@@ -1775,7 +2419,7 @@ def explore(ctx: Ctx) -> Exploration:
     part_errors: Dict[str, str] = {}
     fam_lost: List[str] = []
     for graphs, protocols, tag, future in batches:
-        family = "corpus" if "_c" in tag else "wrappers" if "_w" in tag else "random"
+        family = "corpus" if "_c" in tag else "wrappers" if "_w" in tag else "functions" if "_f" in tag else "random"
         if ctx.elapsed() > (480 if thorough else 50) and family == "random":
             dist["batches_skipped_for_time"] += 1
             continue
@@ -1792,16 +2436,30 @@ def explore(ctx: Ctx) -> Exploration:
                 build_failed += 1
                 if family == "wrappers":
                     fam_lost.append(f"{g['note']}: {r['build_err']}")
+                if family == "functions":
+                    fo_cov[g["fo_kind"]]["construction_failed"] += 1
+                    fo_lost.append(f"{g['note']}: {r['build_err']}")
                 continue
             if uses_unpicklable_part(g, res["parts"]):
-                # a callback / effect helper that does not pickle on its own: outside "picklable parts"
+                # a callback / effect helper / function object that does not pickle on its own: outside "picklable parts"
                 skipped_parts += 1
                 dist["outside_property:unpicklable_part"] += 1
+                if family == "functions":
+                    fo_cov[g["fo_kind"]]["not_a_picklable_part"] += 1
                 continue
+            if family == "functions":
+                fo_cov[g["fo_kind"]]["graphs_judged"] += 1
+                dist["function_object:" + g["fo_kind"]] += 1
+                f33_other += (g["fo_kind"] in f33_kinds and not f33_names(g))
+                for pos in g["fo_positions"]:
+                    if pos not in fo_cov[g["fo_kind"]]["positions"]:
+                        fo_cov[g["fo_kind"]]["positions"].append(pos)
+                    dist["function_position:" + pos] += 1
             cov_cases += 1
             deco = bool(decorator_names(g))
             n_deco += deco
             n_f28_witnesses += bool(f28_names(g))
+            n_f33_witnesses += bool(f33_names(g))
             dist["form:" + ("decorator" if deco else "explicit")] += 1
             dist[f"nodes:{len(g['nodes'])}"] += 1
             for n in g["nodes"]:
@@ -1825,7 +2483,7 @@ def explore(ctx: Ctx) -> Exploration:
                 # node classes inside what was actually pickled (walk of the live objects in process A)
                 for cls, (n_obj, top, under) in r.get("classes", {}).items():
                     e = class_cov.setdefault(cls, {"graphs": 0, "top_level_item": 0, "inside_a_dataset": 0,
-                                                   "in_corpus": 0, "in_wrappers": 0, "in_random": 0})
+                                                   "in_corpus": 0, "in_wrappers": 0, "in_functions": 0, "in_random": 0})
                     e["graphs"] += 1
                     e["top_level_item"] += top
                     e["inside_a_dataset"] += under
@@ -1850,6 +2508,11 @@ def explore(ctx: Ctx) -> Exploration:
                     f12.append((g, r, res["module"], protocols, what))
                 if known == "F28":
                     f28.append((g, r, res["module"], protocols, what))
+                if known == "F33":
+                    f33.append((g, r, res["module"], protocols, what))
+                    fo_cov[g["fo_kind"]]["failing_as_known_finding_F33"] += 1
+                    f33_seen.append({"kind": g["fo_kind"], "positions": g["fo_positions"],
+                                     "annotation_object": f33_names(g), "pickle.dumps": what})
             fresh_v = [(k, w) for k, w, kn in v if kn is None]
             if not fresh_v:
                 continue
@@ -1861,7 +2524,7 @@ def explore(ctx: Ctx) -> Exploration:
             payload = make_payload(g, r, res["module"], protocols, what)
             payload["all_findings_on_this_graph"] = [f"{k}: {w}" for k, w in fresh_v][:12]
             if ctx.elapsed() < (400 if thorough else 40):
-                gs = shrink(g, protocols, kind, what, budget=10 if family == "wrappers" else 24)
+                gs = shrink(g, protocols, kind, what, budget=10 if family in ("wrappers", "functions") else 24)
                 if gs is not g:
                     res2, v2 = run_and_judge([gs], protocols, f"{ctx.seed}_s{new_count}")
                     same = [(k, w) for k, w, kn in v2[gs["gid"]] if kn is None]
@@ -1889,6 +2552,17 @@ def explore(ctx: Ctx) -> Exploration:
             f"interface members declared by annotation / default value / function in the class body, and implementation "
             f"members given as functions, are not picklable ({len(f28)} of {n_f28_witnesses} witness graphs; every "
             f"protocol): " + what, make_payload(g, r, module, protocols, what), known_id="F28"))
+    if f33:
+        # (same rules as F28: the id is handed out only while known_findings.json lists F33 for C20)
+        g, r, module, protocols, what = min(f33, key=lambda t: len(json.dumps(t[0]["nodes"])))
+        findings.append(Finding(
+            "failing-input",
+            f"a dataset built from a function that pickles on its own but is annotated with an object pickle rejects "
+            f"(Annotated[int, <lambda>], a class defined inside a function) is not picklable: dataset(f) / overload(k)(f) "
+            f"copy f.__annotations__ into the Dataset ({len(f33)} of {n_f33_witnesses} witness graphs; every protocol): "
+            + what, make_payload(g, r, module, protocols, what), known_id="F33"))
+    dist["f33_graphs"] = len(f33)
+    dist["f33_witness_graphs"] = n_f33_witnesses
     dist["f28_graphs"] = len(f28)
     dist["f28_witness_graphs"] = n_f28_witnesses
     dist["f12_graphs"] = len(f12)
@@ -1896,7 +2570,8 @@ def explore(ctx: Ctx) -> Exploration:
     # coverage of the library's node classes: every class defined in a labrea module, with the number of pickled
     # graphs (dumps succeeded, graph judged) whose object graph contains an instance of it
     table: Dict[str, Any] = {}
-    zero = {"graphs": 0, "top_level_item": 0, "inside_a_dataset": 0, "in_corpus": 0, "in_wrappers": 0, "in_random": 0}
+    zero = {"graphs": 0, "top_level_item": 0, "inside_a_dataset": 0, "in_corpus": 0, "in_wrappers": 0, "in_functions": 0,
+            "in_random": 0}
     for cls in sorted(set(universe) | set(class_cov)):
         row = dict(class_cov.get(cls, zero))
         if universe.get(cls) == "abstract":
@@ -1933,9 +2608,28 @@ def explore(ctx: Ctx) -> Exploration:
             "wrapper_graphs_not_constructed": fam_lost,
         },
         "unpicklable_library_nodes": unpicklable_nodes,
+        "function_objects": {
+            "rule": "directed family, every run: each kind of function object (a `def` carrying attributes / wrappers / "
+                    "metadata, functools.partial, callable instance, bound / static / class method, builtin, operator "
+                    "object, standard-library function) in each function-taking position it can fill, one graph each, "
+                    "every protocol, in-process and fresh interpreter; per kind: graphs judged, the positions, graphs "
+                    "outside the property because the callable does not pickle on its own, graphs labrea refuses to "
+                    "build, witness graphs failing as known finding F33 describes (see known_finding_witnesses)",
+            "kinds": fo_cov,
+            "positions": [p[0] for p in FO_POSITIONS],
+            "graphs": len(fobj),
+            "graphs_judged": sum(v["graphs_judged"] for v in fo_cov.values()),
+            "process_dependent_kinds": [k["kind"] for k in FO_KINDS if k.get("procdep")],
+            "not_picklable_on_their_own": {k: v for k, v in sorted(part_errors.items()) if k.startswith("fo:")},
+            "graphs_not_constructed": fo_lost,
+            "positions_labrea_refuses_to_build": {f"{k} as {p_}": why for (k, p_), why in FO_NOT_BUILDABLE.items()},
+        },
         "known_finding_witnesses": {"F12": {"graphs": n_deco, "failing_as_described": len(f12)},
                                     "F28": {"graphs": n_f28_witnesses, "failing_as_described": len(f28),
                                             "shapes": sorted(F28_WITNESS)},
+                                    "F33": {"graphs": n_f33_witnesses, "failing_as_described": len(f33),
+                                            "witnesses": f33_seen,
+                                            "same_functions_in_other_positions_judged": f33_other},
                                     "listed_for_C20": sorted(listed_known())},
         "outside_property_skipped": skipped_parts,
         "construction_failed": build_failed,
@@ -1953,6 +2647,9 @@ def replay(ctx: Ctx, payload: Dict[str, Any]) -> int:
     print(f"property C20 replay of graph {g['gid']} ({g.get('note', '')}), protocols {protocols}")
     print("generated module:")
     print("    " + module_src([g]).split("GRAPHS = {}\n", 1)[1].strip().replace("\n", "\n    "))
+    if g.get("fo_source"):
+        print("where (module prelude, function object kind %s):" % g.get("fo_kind"))
+        print("    " + "\n    ".join(g["fo_source"]))
     print("model      :", r.get("model"))
     print("dumps      :", "ok" if not r.get("dump_err") else r.get("dump_err"))
     if r.get("orig"):
